@@ -282,8 +282,8 @@ func (s *Sim) loop() {
 			cur := s.current
 			s.mu.Unlock()
 			resumed := false
-			for i := 0; i < 6000 && !resumed; i++ {
-				time.Sleep(10 * time.Millisecond)
+			for i := 0; i < 600 && !resumed; i++ {
+				time.Sleep(100 * time.Millisecond)
 				synctest.Wait()
 				s.mu.Lock()
 				resumed = cur.st != stRunning
